@@ -58,6 +58,9 @@ def run(ctx):
         ctx.count("aux_inputs", len(aux))
         V = sem.boolvars("n!", A.nodes())
         R = sem.rel(A, V)
+        import networkx as nx
+        gA = A.digraph()
+        on_cycle = {n for scc in nx.strongly_connected_components(gA) if len(scc) > 1 for n in scc}
         assoc = {}
         for x in aux:
             cand = [n for n in A.nodes() if x.endswith("aux_in_" + n)]
@@ -71,6 +74,8 @@ def run(ctx):
         ctx.count("members_with_stable_state" if stable else "members_without_stable_state")
         if len(assoc) == len(aux):
             ctx.side("aux-distinct", len(set(assoc.values())) == len(aux), "acyclic_unroll:aux-duplicated", "two auxiliary inputs for the same feedback node", det)
+            off = sorted(x for x, n in assoc.items() if n not in on_cycle)
+            ctx.side("aux-on-cycle", not off, "acyclic_unroll:aux-not-feedback", f"auxiliary inputs {off} do not belong to a node on a cycle (inputs must be the original inputs plus one per cut feedback node)", det)
             env = {i: V[i] for i in A.inputs()}
             env.update({x: V[assoc[x]] for x in aux})
             fu = S.fn(U, env)
@@ -101,7 +106,10 @@ def run(ctx):
         else:
             # association not readable from names: exists selectors . forall V
             ctx.count("assoc_by_search")
-            nodes = A.nodes()
+            nodes = sorted(on_cycle)  # an auxiliary input stands for a cut feedback node, i.e. a node on a cycle
+            if not nodes:
+                ctx.side("aux-on-cycle", False, "acyclic_unroll:aux-not-feedback", f"extra inputs {aux} although no node lies on a cycle", det)
+                continue
             sel = {x: [z3.Bool(f"sel!{x}!{n}") for n in nodes] for x in aux}
             cons = [z3.PbEq([(b, 1) for b in sel[x]], 1) for x in aux]
             env = {i: V[i] for i in A.inputs()}
